@@ -132,7 +132,23 @@ def run(repo: Repo) -> Result:
         f = repo.func(q)
         res.ob(f"tablerow-handlers:{q}", 2)
         t = text(f.node)
-        if "except BreakLoop:\n    if self.interrupts:\n        _break = True\n    else:\n        raise" not in t.replace("                ", "").replace("            ", "") and "if self.interrupts:" not in t:
+        # path conditions inside the handlers: the interrupt is re-raised exactly when
+        # `self.interrupts` is false, and (BreakLoop) the leave-flag is set only when it is true
+        from ..guards import conditions as _conds0
+        from ..guards import canon as _canon0
+
+        honour = True
+        for h0 in ast.walk(f.node):
+            if isinstance(h0, ast.ExceptHandler) and set(handler_types(h0)) & {"BreakLoop", "ContinueLoop"}:
+                mod0 = ast.Module(body=h0.body, type_ignores=[])
+                raises0 = [(st0, {_canon0(c) for c in cs}) for st0, cs in _conds0(mod0) if isinstance(st0, ast.Raise)]
+                if len(raises0) != 1 or raises0[0][1] != {"not self.interrupts"}:
+                    honour = False
+                if "BreakLoop" in handler_types(h0):
+                    sets0 = [{_canon0(c) for c in cs} for st0, cs in _conds0(mod0) if isinstance(st0, ast.Assign) and isinstance(st0.value, ast.Constant) and st0.value.value is True]
+                    if not sets0 or any("self.interrupts" not in cs for cs in sets0):
+                        honour = False
+        if not honour:
             res.add("C13-INTERRUPT", q, "break", "TablerowNode must honour BreakLoop through its interrupts flag", f.file, f.line)
         # the flag set in the BreakLoop handler is tested after the cell is closed: `if <flag>: break`
         flags = set()
@@ -150,7 +166,11 @@ def run(repo: Repo) -> Result:
     for q in ROOTS:
         f = repo.func(q)
         res.ob(f"root:{q}")
-        fnode = propagate_aliases(_copy.deepcopy(f.node))  # a hoisted flag / `error = self.env.error` alias
+        from ..normalize import nfunc as _nfunc
+
+        # private helpers inlined (a predicate for "may propagate", a factory for the syntax
+        # error), hoisted flags / `error = self.env.error` aliases propagated
+        fnode = _nfunc(repo, f, small_public=3).node
         h = next((x for x in ast.walk(fnode) if isinstance(x, ast.ExceptHandler) and handler_types(x) == ["LiquidInterrupt"]), None)
         ok = False
         if h is not None:
@@ -349,8 +369,22 @@ def run(repo: Repo) -> Result:
         res.add("C13-HELPERS", tr.qual, "init", "TableRow must start at row 1, column 0, index -1", tr.file, tr.node.lineno)
     si = repo.own_method("liquid.context.RenderContext", "stopindex")
     res.ob("shape:stopindex")
-    t = text(si.node)
-    if "if index is not None:" not in t or "self.tag_namespace['stopindex'][key] = index" not in t or ".get(key, 0)" not in t:
+    # path conditions (the table may be read into a local first: aliases are propagated when the
+    # module is loaded): the index is stored under `index is not None` — 0 is an index — and the
+    # stored value, default 0, is returned otherwise
+    from ..guards import canon as _canon1
+    from ..guards import conditions as _conds1
+
+    p_key, p_idx = (si.params() + ["key", "index"])[1:3]
+    stores_ok = reads_ok = False
+    for st1, cs1 in _conds1(si.node):
+        cc1 = {_canon1(c) for c in cs1}
+        if isinstance(st1, ast.Assign) and len(st1.targets) == 1 and isinstance(st1.targets[0], ast.Subscript) and text(st1.targets[0].slice) == p_key and "stopindex" in text(st1.targets[0].value) and is_name(st1.value, p_idx):
+            stores_ok = cc1 == {f"{p_idx} is not None"}
+        for c1 in ast.walk(st1) if not isinstance(st1, (ast.If, ast.For, ast.While, ast.With, ast.Try)) else []:
+            if isinstance(c1, ast.Call) and callee_name(c1) == "get" and "stopindex" in text(call_recv(c1)) and [text(a) for a in c1.args] == [p_key, "0"]:
+                reads_ok = cc1 == {f"{p_idx} is None"}
+    if not (stores_ok and reads_ok):
         res.add("C13-SHAPE", si.qual, "stopindex", "RenderContext.stopindex must store an index when given one (including 0) and default to 0", si.file, si.line)
     return res
 
